@@ -78,7 +78,7 @@ func (s *vC04Sys) Enabled() []vOp {
 	}
 	ids := []int{}
 	for id := range s.live {
-		ids = append(ids, int(id))
+		ids = append(ids, int(id-vIDBase))
 	}
 	sort.Ints(ids)
 	for _, id := range ids {
@@ -97,19 +97,19 @@ func (s *vC04Sys) Apply(op vOp, hist []vOp, check bool) {
 	switch op.K {
 	case "Add":
 		s.nAdd++
-		if err := s.idx.Add(*NewMetadataNodeWithID(uint32(op.A), vCloneMeta(s.docs[op.B]))); err != nil {
+		if err := s.idx.Add(*NewMetadataNodeWithID((uint32(op.A) + vIDBase), vCloneMeta(s.docs[op.B]))); err != nil {
 			if check {
 				s.c.Violation("add-failed", "", s.cfgS, h(), err.Error())
 			}
 			break
 		}
-		s.live[uint32(op.A)] = op.B
+		s.live[(uint32(op.A) + vIDBase)] = op.B
 		for k := range s.docs[op.B] {
 			s.seen[k] = true
 		}
 	case "Remove":
 		var carried map[string]interface{}
-		if di, ok := s.live[uint32(op.A)]; ok {
+		if di, ok := s.live[(uint32(op.A) + vIDBase)]; ok {
 			switch op.B {
 			case 1:
 				carried = vCloneMeta(s.docs[di])
@@ -119,14 +119,14 @@ func (s *vC04Sys) Apply(op vOp, hist []vOp, check bool) {
 				carried = map[string]interface{}{"zz_unknown": "x"}
 			}
 		}
-		if err := s.idx.Remove(*NewMetadataNodeWithID(uint32(op.A), carried)); err != nil {
+		if err := s.idx.Remove(*NewMetadataNodeWithID((uint32(op.A) + vIDBase), carried)); err != nil {
 			if check {
 				s.c.Violation("remove-failed", "", s.cfgS, h(), err.Error())
 			}
 			break
 		}
-		delete(s.live, uint32(op.A))
-		s.rem[uint32(op.A)] = true
+		delete(s.live, (uint32(op.A) + vIDBase))
+		s.rem[(uint32(op.A) + vIDBase)] = true
 	}
 	if check {
 		s.observe(h())
@@ -579,6 +579,243 @@ func (s *vC04Sys) Key() string {
 
 // vC04Sweep: for every n in 1..maxN, n structured documents (every third removed),
 // full filter alphabet and trees after each phase.
+// vC04Keys: field NAMES and string values are arbitrary text. Documents whose field names
+// and values contain the characters an implementation might use as separators (':', '\\',
+// '=', ' ', '|', NUL, the empty value) are added in every order (all sequences of <= 3
+// documents, optionally one removed); every Eq / Ne / In / NotIn / Exists / NotExists over
+// every (field, value) pair occurring in the alphabet is compared with plain map lookups.
+func vC04Keys(c *vCtx, maxDocs int) {
+	docs := []map[string]interface{}{
+		{"a": "b:c"}, {"a:b": "c"}, {"a": "b"}, {"a:": "b:c"}, {"a\\": ":b"}, {"a\\:b": "c"},
+		{"k=v": "w"}, {"k": "v=w"}, {"x y": "z"}, {"x": "y z"}, {"p|q": "r"}, {"p": "q|r"}, {"n\x00m": "o"}, {"n": "m\x00o"},
+		{"a": "", "a:": ""}, {"": "a:b"}, {"": ""},
+	}
+	type fv struct{ f, v string }
+	var pairs []fv
+	fields := map[string]bool{}
+	seenP := map[fv]bool{}
+	for _, d := range docs {
+		for f, v := range d {
+			fields[f] = true
+			if !seenP[fv{f, v.(string)}] {
+				seenP[fv{f, v.(string)}] = true
+				pairs = append(pairs, fv{f, v.(string)})
+			}
+		}
+	}
+	var fl []string
+	for f := range fields {
+		fl = append(fl, f)
+	}
+	sort.Strings(fl)
+	sort.Slice(pairs, func(i, j int) bool { return pairs[i].f+"\x01"+pairs[i].v < pairs[j].f+"\x01"+pairs[j].v })
+	// every field crossed with every value of the alphabet
+	vals := map[string]bool{}
+	for _, p := range pairs {
+		vals[p.v] = true
+	}
+	var vl []string
+	for v := range vals {
+		vl = append(vl, v)
+	}
+	sort.Strings(vl)
+	var seq []int
+	var rec func()
+	judge := func(removed int) {
+		idx := NewRoaringMetadataIndex()
+		live := map[uint32]map[string]interface{}{}
+		var hist []string
+		for i, di := range seq {
+			id := uint32(i + 1)
+			if err := idx.Add(*NewMetadataNodeWithID(id, vCloneMeta(docs[di]))); err != nil {
+				c.Violation("add-failed", "keys", "metadata keys", hist, err.Error())
+				return
+			}
+			live[id] = docs[di]
+			hist = append(hist, fmt.Sprintf("Add(%d,%q)", id, fmt.Sprint(docs[di])))
+		}
+		if removed > 0 {
+			idx.Remove(*NewMetadataNodeWithID(uint32(removed), nil))
+			delete(live, uint32(removed))
+			hist = append(hist, fmt.Sprintf("Remove(%d)", removed))
+		}
+		c.Transitions++
+		c.Traces++
+		c.NewState("keys|" + strings.Join(hist, ";"))
+		check := func(name string, f Filter, pred func(d map[string]interface{}) bool) {
+			c.Evaluations++
+			res, err := idx.NewSearch().WithFilters(f).Execute()
+			if err != nil {
+				c.Violation("search-error", "keys", "metadata keys", hist, name+": "+err.Error())
+				return
+			}
+			got := map[uint32]bool{}
+			for _, r := range res {
+				got[r.GetId()] = true
+			}
+			var want, have []uint32
+			for id, d := range live {
+				if pred(d) {
+					want = append(want, id)
+				}
+			}
+			for id := range got {
+				have = append(have, id)
+			}
+			sort.Slice(want, func(i, j int) bool { return want[i] < want[j] })
+			sort.Slice(have, func(i, j int) bool { return have[i] < have[j] })
+			if fmt.Sprint(want) != fmt.Sprint(have) {
+				c.Violation("wrong-filter-answer", "field-or-value-contains-a-separator-character", "metadata keys", hist, fmt.Sprintf("%s returned %v, expected %v", name, have, want))
+			}
+			if len(want) > 0 && len(want) < len(live) {
+				c.Nontrivial("keys|" + strings.Join(hist, ";") + name)
+			}
+		}
+		for _, f := range fl {
+			f := f
+			check(fmt.Sprintf("Exists(%q)", f), Exists(f), func(d map[string]interface{}) bool { _, ok := d[f]; return ok })
+			check(fmt.Sprintf("NotExists(%q)", f), NotExists(f), func(d map[string]interface{}) bool { _, ok := d[f]; return !ok })
+			for _, v := range vl {
+				v := v
+				eq := func(d map[string]interface{}) bool { x, ok := d[f]; return ok && x == v }
+				check(fmt.Sprintf("Eq(%q,%q)", f, v), Eq(f, v), eq)
+				check(fmt.Sprintf("Ne(%q,%q)", f, v), Ne(f, v), func(d map[string]interface{}) bool { return !eq(d) })
+				check(fmt.Sprintf("In(%q,[%q])", f, v), In(f, v), eq)
+				check(fmt.Sprintf("NotIn(%q,[%q])", f, v), NotIn(f, v), func(d map[string]interface{}) bool { return !eq(d) })
+			}
+		}
+	}
+	rec = func() {
+		if len(seq) > 0 {
+			judge(0)
+			if len(seq) >= 2 {
+				judge(1)
+			}
+		}
+		if len(seq) == maxDocs || c.Expired() {
+			return
+		}
+		for di := range docs {
+			dup := false
+			for _, x := range seq {
+				dup = dup || x == di
+			}
+			if dup {
+				continue
+			}
+			seq = append(seq, di)
+			rec()
+			seq = seq[:len(seq)-1]
+		}
+	}
+	rec()
+	c.Sample("field names / values with ':', '\\\\', '=', ' ', '|', NUL and empty strings; every Eq/Ne/In/NotIn/Exists/NotExists over every (field, value) of the alphabet")
+	c.Bound = fmt.Sprintf("all sequences of <= %d of %d documents, optionally the first removed", maxDocs, len(docs))
+}
+
+// vC04Lists: filters whose VALUES print alike although they differ (a list of one string
+// with a space vs a list of two strings, an empty list vs a list holding the empty string,
+// a bracketed string vs a list, lists in another order) combined in every OR of two
+// groups and every "g1 OR (f2 AND f3)" - an implementation that identifies filters by
+// their printed form (caches, de-duplication, canonical ordering) confuses them.
+func vC04Lists(c *vCtx) {
+	cfgS := "metadata lists"
+	docs := []map[string]interface{}{
+		{"tag": "red wine"}, {"tag": "red"}, {"tag": "wine"}, {"tag": ""}, {}, {"tag": "[red wine]"}, {"tag": "red", "stock": true}, {"tag": "wine", "stock": false},
+	}
+	idx := NewRoaringMetadataIndex()
+	var hist []string
+	for i, d := range docs {
+		if len(d) == 0 {
+			d = map[string]interface{}{"other": "x"}
+			docs[i] = d
+		}
+		if err := idx.Add(*NewMetadataNodeWithID(uint32(i+1), vCloneMeta(d))); err != nil {
+			c.Violation("add-failed", "lists", cfgS, hist, err.Error())
+			return
+		}
+		hist = append(hist, fmt.Sprintf("Add(%d,%v)", i+1, d))
+	}
+	type nf struct {
+		name string
+		f    Filter
+		pred func(d map[string]interface{}) bool
+	}
+	in := func(vals ...string) func(d map[string]interface{}) bool {
+		return func(d map[string]interface{}) bool {
+			x, ok := d["tag"]
+			if !ok {
+				return false
+			}
+			for _, v := range vals {
+				if x == v {
+					return true
+				}
+			}
+			return false
+		}
+	}
+	not := func(p func(d map[string]interface{}) bool) func(d map[string]interface{}) bool {
+		return func(d map[string]interface{}) bool { return !p(d) }
+	}
+	var fs []nf
+	for _, vals := range [][]string{{"red wine"}, {"red", "wine"}, {"wine", "red"}, {}, {""}, {"[red wine]"}, {"red"}, {"", "red wine"}} {
+		iv := make([]interface{}, len(vals))
+		for i, v := range vals {
+			iv[i] = v
+		}
+		fs = append(fs, nf{fmt.Sprintf("In(tag,%q)", vals), In("tag", iv...), in(vals...)})
+		fs = append(fs, nf{fmt.Sprintf("NotIn(tag,%q)", vals), NotIn("tag", iv...), not(in(vals...))})
+	}
+	fs = append(fs, nf{"Eq(tag,\"red wine\")", Eq("tag", "red wine"), in("red wine")})
+	fs = append(fs, nf{"Eq(stock,true)", Eq("stock", true), func(d map[string]interface{}) bool { return d["stock"] == true }})
+	run := func(name string, groups []*FilterGroup, pred func(d map[string]interface{}) bool) {
+		c.Evaluations++
+		res, err := idx.NewSearch().WithFilterGroups(groups...).Execute()
+		if err != nil {
+			c.Violation("search-error", "lists", cfgS, hist, name+": "+err.Error())
+			return
+		}
+		var want, have []uint32
+		for i, d := range docs {
+			if pred(d) {
+				want = append(want, uint32(i+1))
+			}
+		}
+		for _, r := range res {
+			have = append(have, r.GetId())
+		}
+		sort.Slice(have, func(i, j int) bool { return have[i] < have[j] })
+		if fmt.Sprint(want) != fmt.Sprint(have) {
+			c.Violation("wrong-filter-answer", "filters-that-print-alike", cfgS, hist, fmt.Sprintf("%s returned %v, expected %v", name, have, want))
+		}
+		if len(want) > 0 && len(want) < len(docs) {
+			c.Nontrivial("lists|" + name)
+		}
+	}
+	g := func(fl ...Filter) *FilterGroup { return &FilterGroup{Logic: AND, Filters: fl} }
+	for _, a := range fs {
+		a := a
+		run(a.name, []*FilterGroup{g(a.f)}, a.pred)
+		for _, b := range fs {
+			b := b
+			run("("+a.name+") OR ("+b.name+")", []*FilterGroup{g(a.f), g(b.f)}, func(d map[string]interface{}) bool { return a.pred(d) || b.pred(d) })
+			run("("+a.name+" AND "+b.name+")", []*FilterGroup{g(a.f, b.f)}, func(d map[string]interface{}) bool { return a.pred(d) && b.pred(d) })
+			for _, x := range fs {
+				x := x
+				run("("+a.name+") OR ("+b.name+" AND "+x.name+")", []*FilterGroup{g(a.f), g(b.f, x.f)}, func(d map[string]interface{}) bool { return a.pred(d) || (b.pred(d) && x.pred(d)) })
+			}
+		}
+		c.Traces++
+	}
+	c.NewState(cfgS)
+	c.Transitions += int64(len(docs))
+	c.Sample("In(tag,[\"red wine\"]) vs In(tag,[\"red\",\"wine\"]) vs In(tag,[]) vs In(tag,[\"\"]) ... in every g1 OR g2, g1 AND, g1 OR (f2 AND f3)")
+	c.Bound = fmt.Sprintf("all combinations of %d filters in 1-2 groups of <= 2 filters", len(fs))
+}
+
+// (the "bigids" shards run the depth-bounded search and a short sweep with every id shifted
+// by vIDBase: ids around 2^16, 2^31 and up to 2^32-1)
 func vC04Sweep(c *vCtx, maxN int) {
 	for n := 1; n <= maxN; n++ {
 		if c.Expired() {
@@ -605,7 +842,7 @@ func vC04Sweep(c *vCtx, maxN int) {
 			}
 			docs[i] = d
 		}
-		s := &vC04Sys{c: c, cfgS: fmt.Sprintf("metadata sweep n=%d", n), maxDocs: n + 1, docs: docs}
+		s := &vC04Sys{c: c, cfgS: fmt.Sprintf("metadata sweep n=%d", n) + vIDBaseTag(), maxDocs: n + 1, docs: docs}
 		s.Reset()
 		var hist []vOp
 		ap := func(op vOp, check bool) {
@@ -651,9 +888,39 @@ func init() {
 				maxN = 300
 			}
 			sh = append(sh, vShard{Name: "meta/sweep", Run: func(c *vCtx) { vC04Sweep(c, maxN) }})
+			sh = append(sh, vShard{Name: "meta/lists", Run: vC04Lists})
+			sh = append(sh, vShard{Name: "meta/keys", Run: func(c *vCtx) { vC04Keys(c, maxDocs-1) }})
+			for _, base := range vIDBases {
+				base := base
+				sh = append(sh, vShard{Name: fmt.Sprintf("meta/bigids/%d", base), Run: func(c *vCtx) {
+					vIDBase = base
+					defer func() { vIDBase = 0 }()
+					for _, d0 := range []int{0, 4} {
+						s := &vC04Sys{c: c, cfgS: fmt.Sprintf("metadata maxDocs=2 first=%d idbase=%d", d0, base), maxDocs: 2}
+						vBFSFrom(c, s, 4, []vOp{{K: "Add", A: 1, B: d0}})
+					}
+					vC04Sweep(c, 12)
+				}})
+			}
 			return sh
 		},
 		Replay: func(c *vCtx, v *vViolation) bool {
+			if i := strings.Index(v.Config, " idbase="); i >= 0 {
+				var b uint32
+				fmt.Sscanf(v.Config[i:], " idbase=%d", &b)
+				vIDBase = b
+				defer func() { vIDBase = 0 }()
+			}
+			if v.Config == "metadata lists" {
+				vC04Lists(c)
+				_, ok := c.viol[v.Sig()]
+				return ok
+			}
+			if v.Config == "metadata keys" {
+				vC04Keys(c, 3)
+				_, ok := c.viol[v.Sig()]
+				return ok
+			}
 			if strings.HasPrefix(v.Config, "metadata sweep n=") {
 				var n int
 				fmt.Sscanf(v.Config, "metadata sweep n=%d", &n)
